@@ -276,6 +276,19 @@ func (e *bEngine) storeAt(st *bState, p bPtr, v bVal) {
 	v = cloneVal(v)
 	if o.arr {
 		o.ver++
+		if len(comps) == 0 {
+			// a whole array value stored through a pointer to the array
+			o.elems = map[string]bVal{}
+			if av, ok := v.(*bStruct); ok {
+				for k, ev := range av.f {
+					o.elems[k] = ev
+				}
+				if av.sym != "" {
+					o.sym = av.sym
+				}
+			}
+			return
+		}
 		if len(comps) == 1 {
 			o.elems[comps[0]] = v
 			return
